@@ -10,8 +10,9 @@ import ShVerif.Expect.C28Sites
   reviewed expectation.  Whole-interpreter panic freedom is explored by the harness's search leg
   only.
 
-  Three statements that were false on the pinned tree (shift, getopts, arithmetic l-values) hold
-  since the fix: commits 2d6a9e4, 77cabce, fd86341 and are full theorems now.  Statements that are
+  Four statements that were false on the pinned tree (shift, getopts, arithmetic l-values,
+  associative subscripts) hold since the fix: commits 2d6a9e4, 77cabce, fd86341, 443024b and are
+  full theorems now.  Statements that are
   still false of the model (hence of the code: each counter-example is replayed on
   the real interpreter on every run) are kept as `def …_statement : Prop`, with the `…_partial`
   theorem under the exact extra hypothesis and the refutation of the full statement.
@@ -136,17 +137,11 @@ theorem arith_name_nonempty (x : AExpr) (n : Bytes) (h : arithLvalue x = .ok (so
 
 /-! ## associative subscripts -/
 
-/-- Full statement: `idx.(*syntax.Word)` in varInd / assignElem / assignVal holds for every
-    subscript the parser produces. -/
-def assoc_index_safe_statement : Prop := ∀ idx, assocIndex idx ≠ .panic
-
-theorem assoc_index_partial (parts : List Part) : assocIndex (.word parts) ≠ .panic := by
-  intro h; cases h
-
-/-- `declare -A a; echo ${a[1+2]}`. -/
-theorem assoc_index_counterexample : ¬ assoc_index_safe_statement := by
-  intro h
-  exact h .binary (by decide)
+/-- Whatever subscript the parser produces (`k`, `1+2`, `i++`, `(1)`, zsh flags, none), `varInd` /
+    `assignElem` / `assignVal` on an associative array do not fail a type assertion (full statement
+    since fix 443024b: a non-word subscript is an error). -/
+theorem assoc_index_safe (idx : AExpr) : assocIndex idx ≠ .panic := by
+  cases idx <;> (intro h; cases h)
 
 /-! ## panic-site table -/
 
@@ -169,6 +164,7 @@ example : grun ⟨0, 0⟩ [⟨1, [97, 98, 99], [[45, 97, 98, 99]]⟩, ⟨1, [97,
     ⟨1, [97, 98, 99], [[45, 97]]⟩] = .ok ⟨1, 0⟩ := by decide
 example : arithLvalue (.word [.nakedIndex [97]]) = .ok none := by decide
 example : arithLvalue .unary = .ok none := by decide
+example : assocIndex .binary = .ok false := by decide
 example : fpObeys (FP.init [[45, 97, 98], [120]]) false [.more, .flag, .more, .flag, .more, .args] = true := by decide
 example : (fpRun (FP.init []) [.flag]).2 = true := by decide
 example : params true [false, false, false, false, false, false, false] [[45, 101], [45, 45], [120]]
